@@ -355,7 +355,7 @@ def gen_string_case(r, cid):
     buf = gen_buffer(r, alts, fl)
     rule = "rule r { strings: $a = /%s/%s %s condition: #a >= 0 }" % (text, rfl, mods)
     meta = dict(kind="string", regex=text, reflags=rfl, mods=mods, greedy=greedy, nodes=rc.count_nodes(ast), has_rep=has_rep(alts), zone=None)
-    line = "%s src=%s re=%s fl=%s buf=%s code=1 fx=1" % (cid, hx(rule), rc.ast_text(ast), fl, hx(buf))
+    line = "%s src=%s re=%s fl=%s buf=%s code=1 fx=1 atoms=1" % (cid, hx(rule), rc.ast_text(ast), fl, hx(buf))
     return line, meta
 
 
@@ -517,7 +517,7 @@ def run(tier, replay=None):
         rx, mods, fl, buf = ent[:4]
         cid = "k%d" % i
         rule = "rule r { strings: $a = %s %s condition: #a >= 0 }" % (rx, mods)
-        cases.append("%s src=%s re=%s fl=%s buf=%s code=1 fx=1" % (cid, hx(rule), ent[4] if len(ent) > 4 else "?", fl, hx(buf)))
+        cases.append("%s src=%s re=%s fl=%s buf=%s code=1 fx=1 atoms=1" % (cid, hx(rule), ent[4] if len(ent) > 4 else "?", fl, hx(buf)))
         metas[cid] = dict(kind="string", regex=rx, mods=mods, corpus=True)
     for i, (rx, rfl, opnd) in enumerate(MCORPUS):
         cid = "km%d" % i
@@ -674,12 +674,14 @@ def run(tier, replay=None):
         return "C03-nullable-repeat" in kf and nullable_repeat(toks.get("re", ""))
     wres, wfound = rc.check_wfx(core, chk, b, [c for c in cases if c.split(" ", 1)[0] not in hz], excuse, found_so_far=found) if lres.get("driver_ok") else ({}, False)
     found = found or wfound
+    ares, afound = rc.check_atoms(core, chk, cases, imap, found_so_far=found) if lres.get("driver_ok") else ({}, False)
+    found = found or afound
     chk.cov.update({
         "evaluations": len(cases), "distinct_nontrivial": len(distinct),
         "rule": "generated regex (<=12 AST nodes) x buffer (<=200 bytes) built from sampled instances / mutations; non-trivial = the specification admits at least one match "
                 "in the buffer (strings) or any verdict (matches operator); distinct (regex, modifiers, buffer)",
         "histogram": hist, "violating_cases": nviol, "known_finding_cases": {k: len(v) for k, v in known_hits.items()},
-        "traces_validated_against_impl": len(cases) - nviol, "fx": fxres.get("cov"), "wfx": wres,
+        "traces_validated_against_impl": len(cases) - nviol, "fx": fxres.get("cov"), "wfx": wres, "atoms_tie": ares,
         "samples": [{"meta": metas.get(c.split(" ", 1)[0]), "implementation": imap.get(c.split(" ", 1)[0], "")[:300], "model": mmap.get(c.split(" ", 1)[0], "")[:300]}
                     for c in cases[len(CORPUS):len(CORPUS) + 2]],
     })
